@@ -180,7 +180,12 @@ func elements(results []*OpResult) []elem {
 			case r.Out.Class == "ok" && !r.Out.Hit:
 				c = "yes"
 			case r.Out.Class == "ok" && r.Out.Hit:
-				c = "no"
+				// an idempotency hit points at a log that exists; it is the caller's own only when the
+				// caller could not know its first attempt had committed (ambiguous commit)
+				c = "hit"
+				if uncertain(r) {
+					c = "hit-maybe"
+				}
 			case r.Out.Class == "server_err" && len(r.Faults) == 0:
 				// a 5xx with no injected fault: effect unknown (reported by the profile, not here)
 				c = "maybe"
@@ -253,7 +258,7 @@ func matchParallel(op *Op, res []ElemOutcome, i int) ElemOutcome {
 
 func CheckLogsMatchOps(prop string, views map[string]*LedgerView, results []*OpResult) []Violation {
 	var vs []Violation
-	type cnt struct{ yes, maybe, logs int }
+	type cnt struct{ yes, maybe, logs, hits int }
 	counts := map[string]*cnt{} // ledger|sig
 	get := func(k string) *cnt {
 		if counts[k] == nil {
@@ -271,6 +276,11 @@ func CheckLogsMatchOps(prop string, views map[string]*LedgerView, results []*OpR
 		case "yes":
 			c.yes++
 		case "maybe":
+			c.maybe++
+		case "hit":
+			c.hits++
+		case "hit-maybe":
+			c.hits++
 			c.maybe++
 		default:
 			// "no": mention the signature so that a stray log is attributed
@@ -296,6 +306,9 @@ func CheckLogsMatchOps(prop string, views map[string]*LedgerView, results []*OpR
 		c := counts[k]
 		if c.logs < c.yes {
 			vs = append(vs, Violation{prop, "acknowledged-write-has-log", fmt.Sprintf("%s: %d acknowledged non-dry-run write(s) but %d log(s)", k, c.yes, c.logs)})
+		}
+		if c.hits > 0 && c.logs == 0 {
+			vs = append(vs, Violation{prop, "idempotency-hit-points-at-a-committed-write", fmt.Sprintf("%s: %d caller(s) were answered an idempotency hit but no log exists", k, c.hits)})
 		}
 		if c.logs > c.yes+c.maybe {
 			vs = append(vs, Violation{prop, "failed-or-dry-run-write-leaves-no-log", fmt.Sprintf("%s: %d log(s) but only %d acknowledged (+%d unknown) write(s)", k, c.logs, c.yes, c.maybe)})
